@@ -39,8 +39,23 @@ func c18Cell(rng *rand.Rand) string {
 	case 1:
 		n = 990 + rng.Intn(40)
 	}
-	// metacharacters and % are rare inside cells
 	var sb strings.Builder
+	if rng.Intn(12) == 0 {
+		// runes whose upper case is longer than their lower case (2 -> 3 bytes): the upper-cased text outgrows the cell
+		grow := []rune("ɐɑɒȿɀɫɽɱ")
+		for i, m := 0, 5+rng.Intn(60); i < m; i++ {
+			if rng.Intn(6) == 0 {
+				sb.WriteRune(c18Runes[rng.Intn(22)])
+			} else {
+				sb.WriteRune(grow[rng.Intn(len(grow))])
+			}
+		}
+		for i, m := 0, rng.Intn(12); i < m; i++ {
+			sb.WriteRune(c18Runes[rng.Intn(22)])
+		}
+		return sb.String()
+	}
+	// metacharacters and % are rare inside cells
 	for i := 0; i < n; i++ {
 		r := c18Runes[rng.Intn(len(c18Runes))]
 		if strings.ContainsRune("%.*+?()[]{}|^$\\", r) && rng.Intn(4) > 0 {
